@@ -472,6 +472,19 @@ def m_slice_chunks(ex, st, m, a):
     return Agg('Chunks', (Ref(r.addr, r.path), s0, s0 + len(items), k.v))
 
 
+def m_copy_from_slice(ex, st, m, a):
+    """<[T]>::copy_from_slice(dst, src): lengths must agree (panics otherwise), elements copied in order"""
+    dst, src = a
+    di, d0 = seq_items(ex, st, dst)
+    si, _ = seq_items(ex, st, src)
+    if len(di) != len(si):
+        ex.oblige(st, 'panic', False, 'copy_from_slice: source slice length (%d) does not match destination slice length (%d)' % (len(si), len(di)), ('leaf', m.group(0)))
+        raise PathDead()
+    for k, v in enumerate(si):
+        ex.store(st, Ref(dst.addr, dst.path + (('i', d0 + k),)), v)
+    return UNIT
+
+
 def m_vec_extend(ex, st, m, a):
     """Vec::extend(iter): appends every item the iterator yields"""
     it = a[1]
@@ -777,7 +790,8 @@ STD_MODELS = [
     (r'Vec::<.+>::truncate', m_vec_truncate),
     (r'<Vec<.+> as Extend<.+>>::extend::<.+>', m_vec_extend),
     (r'Vec::<.+>::extend::<.+>', m_vec_extend),
-    (r'core::slice::<impl \[.+\]>::chunks', m_slice_chunks),
+    (r'core::slice::<impl \[.+\]>::chunks(?:_mut)?', m_slice_chunks),
+    (r'core::slice::<impl \[.+\]>::copy_from_slice', m_copy_from_slice),
     (r'Vec::<.+>::len', m_vec_len),
     (r'Vec::<.+>::reserve', m_vec_reserve),
     (r'(std::vec::|alloc::vec::)?from_elem::<.+>', m_vec_from_elem),
